@@ -80,6 +80,15 @@ def base_requests(r, ctx):
         (ver, gen.gen_locate(ctx, ver, 0)),
     ]
     ver, op = r.choice(menu)
+    if r.random() < 0.12:
+        # a frame larger than any receive buffer the session uses (4 KiB)
+        # and than a typical network segment
+        op = gen.gen_register(ctx, ver, 0, r.choice(['OpaqueData',
+                                                     'SecretData']))
+        ctx.objs.pop()
+        op.pop('label', None)
+        op['obj']['value'] = ctx.rbytes(r.choice(
+            [4000, 4090, 4100, 5000, 9000, 20000, 70000]))
     rq = {'actor': 0, 'ver': list(ver), 'items': [op]}
     if r.random() < 0.15:
         rq['items'].append({'op': 'Query', 'funcs': [1]})
